@@ -5,7 +5,12 @@ package props
 // stretches, N gaps whose case changes inside the gap) and sizes around and beyond the usual
 // internal block sizes (2^8 .. 2^17). Deterministic: a function of (n, variant) only.
 
-import "bytes"
+import (
+	"bytes"
+	"strings"
+
+	"github.com/fluhus/biostuff/sequtil"
+)
 
 // sizeLadder: lengths around the powers of two that block-wise implementations use.
 var sizeLadder = []int{255, 256, 257, 1023, 1024, 1025, 4095, 4096, 4097, 8191, 8193, 12289, 16385, 65535, 65536, 65537, 70001, 131073}
@@ -100,4 +105,48 @@ func realProtein(n, variant int, letters []byte) []byte {
 		}
 	}
 	return out
+}
+
+// warmSequtil does what a program that uses the whole package does between two calls of the
+// function under test: it calls the package's other sequence functions on related data
+// (longer, shorter, shifted by one; every third case only, chosen by the data, so that
+// back-to-back calls of one function are exercised as well). Nothing these calls do may
+// influence the call that follows. Only data over aAcCgGtT of moderate length is used; every
+// call is guarded, results are discarded.
+func warmSequtil(s []byte, o *Obs) {
+	if len(s) == 0 || len(s) > 3000 || (len(s)+int(s[0]))%3 != 0 {
+		return
+	}
+	for _, c := range s {
+		if strings.IndexByte("aAcCgGtT", c) < 0 {
+			return
+		}
+	}
+	if o != nil {
+		o.Class("after calls of the package's other sequence functions")
+	}
+	up := bytes.ToUpper(s)
+	tri := append(append(append([]byte{}, up...), up...), up...)
+	calls := []func(){
+		func() { sequtil.Translate(nil, tri) },
+		func() { sequtil.TranslateReadingFrames(append(append([]byte{}, s...), 'G')) },
+		func() { sequtil.ReverseComplement(nil, tri[:len(tri)-1]) },
+		func() { sequtil.ReverseComplementString(string(s) + "n") },
+		func() { sequtil.DNATo2Bit(nil, append(append([]byte{}, tri...), 'C', 'g', 'T')) },
+		func() { sequtil.DNAFrom2Bit(nil, up) },
+		func() {
+			n := 0
+			for range sequtil.CanonicalSubsequences(tri, 1+len(s)%5) {
+				if n++; n == 2 {
+					break
+				}
+			}
+		},
+	}
+	// the order rotates with the data, so that each function is the last one before the call
+	// under test in some cases
+	rot := (len(s)/3 + int(s[len(s)-1])) % len(calls)
+	for i := range calls {
+		catch(calls[(i+rot)%len(calls)])
+	}
 }
